@@ -3,6 +3,7 @@ import Mochi.Props.TieA.Codes
 import Mochi.Props.TieA.Attach
 import Mochi.Props.TieA.Handlers
 import Mochi.Props.TieA.WriteLoop
+import Mochi.Props.TieA.Decode
 /-!
 # Tie A obligations over the regenerated tables and statement orders
 
@@ -13,6 +14,7 @@ import Mochi.Props.TieA.WriteLoop
 | `TieA/Attach.lean`     | `Gen/Programs.lean`   | `C13_attach_order_tied`, `C14_inherit_order_tied`             | C13 C14 C16 C35 C09 C21 |
 | `TieA/Handlers.lean`   | `Gen/Programs.lean`   | `C21_suback_after_store_tied`, `C09_pubrec_order_tied`, `C09_pubrel_order_tied`, `C07_publish_order_tied` | C21 C09 C07 |
 | `TieA/WriteLoop.lean`  | `Gen/Programs.lean`   | `C34_writeloop_order_tied`                                    | C34 |
+| `TieA/Decode.lean`     | `Gen/Programs.lean`   | `C27_properties_decode_order_tied`                            | C27 C28 C26 |
 
 Self-test (extractor pointed at a mutated scratch copy of /repo): removing `Subscribe: 1` from the
 `PropSubscriptionIdentifier` row breaks `C26_prop_table_tied`; moving `s.hooks.OnSubscribed(...)` after
